@@ -50,7 +50,13 @@ func c08Frags(r *plan.Rng) []c08Frag {
 			"q := 3.5 + 0.0",
 			"kc := 'a' + 0",
 			"w2 := w * 1 + inp",
-			"bt := true && (inp > 2)"}},
+			"w3 := y + inp",
+			"w4 := 1000 - inp",
+			"q2 := 3.5 * float(inp)",
+			"s5 := \"préfix-\" + ins",
+			"kc2 := 'a' + inp % 20",
+			"bt := true && (inp > 2)",
+			"w5 := y + z + 7 + 1000 + 3.5"}},
 		{name: "closures", lines: []string{
 			"mk := func(a) {",
 			"	return func(b) {",
